@@ -148,11 +148,13 @@ CHECKS.update({
                 "recorded (LD_PRELOAD), compared call by call with the model's trace, and fed to the Coq monitor whose acceptance "
                 "is proved to imply: exclusive creation with ids above every id ever present, writes only appending to the file "
                 "this process created last (or its hint) and only while it is within the size bound, nothing written to inherited "
-                "files; truncate/rename/pwrite/open-for-write/writable mmap are reported by the recorder and rejected. That every "
-                "model trace is accepted is evaluated per run, not yet proved (partial).",
+                "files; truncate/rename/pwrite/open-for-write/writable mmap are reported by the recorder and rejected. Proved in Coq "
+                "(Store/Discipline.v): the monitor accepts the whole trace of EVERY ready script of the model - sets, deletes, "
+                "reopens, merge passes with their rollovers and unlinks - so the discipline holds for the model in all executions; "
+                "the recorded real traces tie the model to the code.",
         "design_ref": "DESIGN.md section 8, C14",
         "note": STORE_NOTE + " The recorder sees libc calls only. Absence of truncate/rename in all executions is monitored, not proved.",
-        "technique": "Coq-proved trace monitor evaluated on recorded real traces + trace correspondence with the model",
+        "technique": "Coq proof (monitor soundness + acceptance of every model trace) + monitor evaluated on recorded real traces + trace correspondence",
     },
     "C03": {
         "text": "Machine-checked proof over a byte-level file-system model plus crash-point enumeration on the real store. Proved in "
